@@ -228,6 +228,9 @@ def build_pool(seed, tier):
     calls.extend(amb)
     for d, q, col, sch in corpus.LINEAGE_CASES:
         calls.append({"op": "lineage", "sql": q, "read": d, "schema": sch, "column": col})
+    for q in corpus.MIXED_CASE:
+        calls.append({"op": "optimize", "sql": q, "read": None, "schema": "none", "pretty": False})
+        calls.append({"op": "rule", "rule": "pushdown_projections", "sql": q, "read": None, "schema": "none"})
     for q in corpus.MERGE_CONFLICTS:
         calls.append({"op": "optimize", "sql": q, "read": None, "schema": "xyz", "pretty": False})
         calls.append({"op": "rule", "rule": "merge_subqueries", "sql": q, "read": None, "schema": "xyz"})
